@@ -37,8 +37,14 @@ def model(chk, progs, cfg, expect_violation=False):
 
 
 def validate_execs(chk, execs):
+    """TLC verdict for every recorded execution (in batches: the trace file is re-read by TLC while it evaluates)"""
     if not execs:
-        return
+        return []
+    if len(execs) > 800:
+        out = []
+        for a in range(0, len(execs), 800):
+            out += validate_execs(chk, execs[a:a + 800])
+        return out
     path = os.path.join(engine.sub_dir('traces'), 'thr-%d-%d.json' % (os.getpid(), random.randrange(10 ** 6)))
     json.dump(execs, open(path, 'w'))
     r = tlc.run('VTLThreads_Trace', 'VTLThreads_Trace.cfg', env={'TRACE_FILE': path}, workers=16, timeout=3000)
